@@ -188,6 +188,12 @@ func (j *jmessage) toJSON() ([]byte, error) {
 	case j.E != nil:
 		e, err := json.Marshal(j.E)
 		if err != nil {
+			// The error cannot be encoded (for example, its data are not
+			// valid JSON). Report that in its place, so that the request is
+			// still answered and the rest of a batch is not lost with it.
+			e, err = json.Marshal(&Error{Code: InternalError, Message: "invalid error value: " + err.Error()})
+		}
+		if err != nil {
 			return nil, err
 		}
 		sb.WriteString(`,"error":`)
